@@ -36,7 +36,12 @@ def step (st : St) (ts : List String) : St × List String :=
     | some ssrc, some seq, some t, some len, some dt =>
       if seq < 65536 ∧ t < M32 ∧ bound st ssrc then
         let now := st.now + dt
-        ({ st with now, streams := update st.streams ssrc (processRTP · { now, seq, ts := t, len }) }, [])
+        let rep := (getNat fs "rep").getD 0
+        let strs := update st.streams ssrc (processRTP · { now, seq, ts := t, len })
+        -- rep=N: N further packets of the same frame with consecutive sequence numbers
+        let strs := (List.range rep).foldl (fun acc i =>
+          update acc ssrc (processRTP · { now, seq := (seq + i + 1) % 65536, ts := t, len })) strs
+        ({ st with now, streams := strs }, [])
       else (st, ["bad-op"])
     | _, _, _, _, _ => (st, ["bad-op"])
   | some "tick" =>
@@ -113,7 +118,13 @@ def step (st : St) (ts : List String) : St × List String :=
     | some ssrc, some ntp, some r, some dt =>
       if ssrc < M32 ∧ ntp < 18446744073709551616 ∧ r < M32 then
         let (st, out) := adv st dt
-        ({ st with streams := update st.streams ssrc (processSR · st.now ntp) }, out)
+        -- `pre`: sender reports of other SSRCs that come first in the same compound packet
+        match (lookup fs "pre").map natList |>.getD (some []) with
+        | none => (st, ["bad-op"])
+        | some pre =>
+          let strs := (pre.zipIdx).foldl (fun acc (p : Nat × Nat) =>
+            update acc p.1 (processSR · st.now ((ntp + p.2 + 1) % 18446744073709551616))) st.streams
+          ({ st with streams := update strs ssrc (processSR · st.now ntp) }, out)
       else (st, ["bad-op"])
     | _, _, _, _ => (st, ["bad-op"])
   | some "tick" =>
